@@ -198,3 +198,42 @@ where
         i += 1;
     }
 }
+
+fn is_prefix(a: &[u8], b: &[u8]) -> bool {
+    if a.len() > b.len() {
+        return false;
+    }
+    let mut i = 0;
+    while i < a.len() {
+        if a[i] != b[i] {
+            return false;
+        }
+        i += 1;
+    }
+    true
+}
+/// C11: the four (suite, interface) api_ids - which prefix every DST and generator seed - are pairwise
+/// different and none is a prefix of another, and the blind generator family's id ("BLIND_" || blind
+/// api_id) starts with none of them
+pub fn api_ids_separate() {
+    let ids: [&[u8]; 4] = [
+        Bls12381Sha256::API_ID,
+        Bls12381Sha256::API_ID_BLIND,
+        Bls12381Shake256::API_ID,
+        Bls12381Shake256::API_ID_BLIND,
+    ];
+    let mut i = 0;
+    while i < 4 {
+        let mut j = 0;
+        while j < 4 {
+            if i != j {
+                assert!(!is_prefix(ids[i], ids[j]), "C11: one interface's api_id is a prefix of another's");
+            }
+            j += 1;
+        }
+        assert!(!is_prefix(ids[i], b"BLIND_BBS_BLS12381G1_X"), "C11: the blind generator family id collides with an api_id");
+        assert!(is_prefix(b"BBS_BLS12381G1_X", ids[i]), "C11: api_id does not start with the ciphersuite id");
+        i += 1;
+    }
+    kani::cover!(true, "checked");
+}
